@@ -252,6 +252,9 @@ class ProvXMLSerializer(Serializer):
         """
 
         for element in xml_doc:
+            if not isinstance(element.tag, str):
+                # a processing instruction (or comment): no PROV content
+                continue
             qname = etree.QName(element)
             if qname.namespace != DEFAULT_NAMESPACES["prov"].uri:
                 raise ProvXMLException(
@@ -348,6 +351,9 @@ def _extract_attributes(element):
     """
     attributes = []
     for subel in element:
+        if not isinstance(subel.tag, str):
+            # a processing instruction (or comment): no PROV content
+            continue
         sqname = etree.QName(subel)
         if subel.prefix is None:
             # the element is in the default namespace
